@@ -78,6 +78,8 @@ async fn run(mut s: Sim, mut rng: Rng, len: usize) -> Sim {
             16 => { let na = rng.pick(&users).clone(); let who = if rng.chance(3, 4) { up.clone() } else { rng.pick(&users).clone() };
                     let ix = s.pp_set_admin(&who, &na); if s.op(tx(vec![ix])).await { admin = na; } continue; }
             17 => s.pp_initialize(&payer),
+            20 => { // grant / deny signed by the admin in the sentinel's place (the admin is not the sentinel)
+                if rng.chance(1, 2) { s.pp_grant(&admin, &svc, &payer) } else { s.pp_deny(&admin, &svc) } }
             18 => { // configuration attempted by somebody who is not (or no longer) the admin
                 let who = rng.pick(&users).clone(); s.pp_configure(&who, PpSetting::BackupLimit(3)) }
             21 => { // look-alikes: program data naming the attacker (loader-owned at a foreign address / other owners), forged config
